@@ -2,6 +2,7 @@ package props
 
 import (
 	"encoding/json"
+	"strings"
 
 	coraza "github.com/corazawaf/coraza/v3"
 
@@ -160,6 +161,15 @@ func init() {
 				for j := 0; j < subsets; j++ {
 					prob := []float64{0.5, 0.8, 0.3, 1.0}[j%4]
 					c := &flowCase{Program: p, Text: text, Req: gen.SteerRequest(gen.Subset(w.Rng, steers, prob))}
+					if gen.BodySteered(p) {
+						// the same steering arguments also travel in a request body the library has to parse
+						var parts []string
+						for _, kv := range c.Req.Get {
+							parts = append(parts, kv.K+"="+kv.V)
+						}
+						c.Req.Method, c.Req.RawBody = "POST", strings.Join(parts, "&")
+						w.Count("cases_steered_from_a_parsed_body", 1)
+					}
 					if !flowJudge(w, "C08", c, sl.CompareOpts{Evaluated: true, TX: true}, c08Classify(c), c08Cover(w, c)) {
 						break
 					}
